@@ -32,4 +32,6 @@ def main : IO Unit := do
     loop h out ({} : Notify.Center) Notify.driverStep {}
   | some (.list [.atom "model", .atom "layer"]) =>
     loop h out ({} : Layer.DState) Layer.driverStep {}
+  | some (.list [.atom "model", .atom "repr"]) =>
+    loop h out ({} : Repr.World Unit) Repr.driverStep {}
   | _ => out.putStrLn "unknown-model"
